@@ -197,7 +197,7 @@ mut("C17", "r-inplace-on-history", E + "Models/_phasefield.py", "        # J/m3\
 mut("C08", "coord-global-index", E + "FEM/_group_elem.py", "        connect = self._global_to_local_nodes[self.connect]\n        coord_e = self.coord[connect]", "        connect = self.connect\n        coord_e = self.coord[connect]", "index")
 mut("C08", "tag-with-local-rows", E + "FEM/_group_elem.py", "        closest_nodes = self.nodes[closest_node_indices]\n", "        closest_nodes = self._global_to_local_nodes[self.nodes[closest_node_indices]]\n", "_Get_nearby_elements")
 same("C08", "nearby-nodes-inline", E + "FEM/_group_elem.py", "        closest_nodes = self.nodes[closest_node_indices]\n\n        return closest_nodes", "        return self.nodes[closest_node_indices]")
-same("C19", "plane-stress-test-rewrite", E + "Models/InElastic/_behavior.py", "            if np.max(np.abs(r_e_pg)) < tol:", "            if np.abs(r_e_pg).max() < tol:")
+same("C19", "plane-stress-test-rewrite", E + "Models/InElastic/_behavior.py", "            if it > 0 and np.max(np.abs(r_e_pg)) < tol:", "            if it > 0 and np.abs(r_e_pg).max() < tol:")
 same("C18", "kelvin-voigt-distribute", E + "FEM/Operators/NonLinear.py", "    Kgeo_e = thickness * (A_mat + A_geo)", "    Kgeo_e = thickness * A_mat + thickness * A_geo")
 same("C08", "jacobian-abs-flag-local", E + "FEM/_group_elem.py", "        if absoluteValues:\n            jacobian_e_pg = np.abs(jacobian_e_pg)\n\n        return jacobian_e_pg", "        if absoluteValues:\n            jacobian_e_pg = np.absolute(jacobian_e_pg)\n        return jacobian_e_pg")
 same("C13", "field-copy-explicit", E + "FEM/_field.py", "        return copy.deepcopy(self)", "        new = copy.deepcopy(self)\n        return new")
@@ -468,7 +468,7 @@ same("C17", "r6-sqrt-clamp-mask-store", E + "Models/_phasefield.py", "          
 same("C17", "r6-sqrt-clamp-where", E + "Models/_phasefield.py", "            delta = np.maximum(delta, 0.0)\n", "            delta = np.where(delta > 0.0, delta, 0.0)\n")
 same("C17", "r6-arccos-minmax", E + "Models/_phasefield.py", "            np.clip(arg, -1.0, 1.0, out=arg)\n", "            arg = np.minimum(1.0, np.maximum(-1.0, arg))\n")
 
-same("C19", "r6-convergence-local-magnitude", E + "Models/InElastic/_behavior.py", "            if np.max(np.abs(r_e_pg)) < tol:\n", "            err_e_pg = np.abs(r_e_pg)\n            if err_e_pg.max() < tol:\n")
+same("C19", "r6-convergence-local-magnitude", E + "Models/InElastic/_behavior.py", "            if it > 0 and np.max(np.abs(r_e_pg)) < tol:\n", "            err_e_pg = np.abs(r_e_pg)\n            if it > 0 and err_e_pg.max() < tol:\n")
 same("C19", "r6-convergence-two-sided-chain", E + "Models/InElastic/_materialpoint.py", "                if np.max(np.abs(r)) < self._tol:\n", "                if -self._tol < np.min(r) and np.max(r) < self._tol:\n")
 
 # ---------------------------------------------------------------- round 7 repairs: the rules that decided them
